@@ -190,6 +190,30 @@ def check_acl(arg):
         for a in (o.srcaddr, o.dstaddr):
             if a.addrgroup and a.addrgroup in by_name and sorted(m.prefix for m in a.items) != by_name[a.addrgroup]:
                 bad("members", f"after conversion an entry references {a.addrgroup} with members {[m.prefix for m in a.items]}, the group has {by_name[a.addrgroup]}")
+    # an AceGroup with the same entries converted on its own gives the same rules as the ACL body
+    if not fails and not group_by:
+        try:
+            grp = cisco_acl.AceGroup("\n".join(lines), platform=src)
+            for o in grp.items:
+                if isinstance(o, cisco_acl.Ace):
+                    for addr in (o.srcaddr, o.dstaddr):
+                        if addr.addrgroup:
+                            addr.items = [cisco_acl.Address(m, platform=src) for m in sc.GROUPS[src][addr.addrgroup]]
+            if switches[0]:
+                grp.port_nr = True
+            if switches[1]:
+                grp.protocol_nr = True
+            grp.platform = dst
+            got_g = [l.strip() for l in grp.line.splitlines()]
+            want_g = [l.strip() for l in after_text.splitlines()[1:]]
+            if got_g != want_g:
+                bad("acegroup-differs", f"AceGroup of the same entries converted on its own: {got_g}, the ACL body: {want_g}")
+        except ValueError as ex:
+            # refusing to convert an AceGroup that holds a multi-port entry is pinned by tests/test__ace_group.py::test_invalid__platform (as for a single ACE)
+            if not any(len(p_.items) > 1 and p_.operator in ("eq", "neq") for o in build(list(lines), src).items if isinstance(o, cisco_acl.Ace) for p_ in (o.srcport, o.dstport)):
+                bad("acegroup-error", f"AceGroup of the same entries converted on its own: {type(ex).__name__}: {str(ex)[:150]}")
+        except Exception as ex:
+            bad("acegroup-error", f"AceGroup of the same entries converted on its own: {type(ex).__name__}: {str(ex)[:150]}")
     # there . back . there == there
     if not fails:
         try:
